@@ -9,13 +9,15 @@ def main():
   ap.add_argument('--replay')
   ap.add_argument('--jobs', type=int)
   ap.add_argument('--budget', type=float)
+  ap.add_argument('--only')
   a = ap.parse_args()
   sys.setrecursionlimit(20000)
   from . import run
   if a.replay:
     sys.exit(run.do_replay(a.replay))
   seed = int(os.environ.get('VERIF_SEED', '0') or 0)
-  sys.exit(run.run_property(a.prop, a.tier, seed=seed, budget_s=a.budget, jobs=a.jobs))
+  if a.only: os.environ['VERIF_ONLY'] = a.only
+  sys.exit(run.run_property(a.prop, a.tier, seed=seed, budget_s=a.budget, jobs=a.jobs, only=a.only.split(',') if a.only else None))
 
 
 if __name__ == '__main__':
